@@ -551,7 +551,8 @@ class World:
                                   ('setnum ~ %016x' % d2b(1.5), ['%016x' % d2b(1.5)]), ('setint ~ 7', ['7']), ('setbool ~ 1', ['0']), ('setstr ~ %s' % hx(b'x'), ['nil']),
                                   ('dup %d ~ 1' % d, ['nil']), ('cmp ~ %d 1' % si, ['0']), ('cmp %d ~ 1' % si, ['0']), ('is ~', ['0']), ('gsv ~', ['nil']), ('gnv ~', ['nan']),
                                   ('has ~ %s' % hx(b'a'), ['0']), ('geto ~ %s %d' % (hx(b'a'), d), ['nil']), ('cstr %d ~' % d, ['nil']), ('craw %d ~' % d, ['nil']),
-                                  ('hnull ~ %s %d' % (hx(b'a'), d), ['nil']), ('parse %d 0 ~ 0' % d, ['nil']), ('print ~ 0', ['nil']), ('print ~ 1', ['nil']), ('print ~ 2 10 1', ['nil'])])
+                                  ('hnull ~ %s %d' % (hx(b'a'), d), ['nil']), ('parse %d 0 ~ 0' % d, ['nil']), ('print ~ 0', ['nil']), ('print ~ 1', ['nil']), ('print ~ 2 10 1', ['nil']),
+                                  ('print %d 2 -1 1' % si, ['nil']), ('print %d 2 -2147483648 0' % si, ['nil']), ('parse %d 1 ~ 1' % d, ['nil']), ('parse %d 2 ~ 0' % d, ['nil']), ('parse %d 3 ~ 1' % d, ['nil'])])
             self.emit(line, e)
             self.drop_slot(d)
 
@@ -639,6 +640,15 @@ class World:
         nodes = self.owned_nodes(self.root_of(c))
         m = rng.choice(nodes)
         sm = self.handle(m)
+        if m.kind not in 'ao':
+            # size / index / key queries on an item that is not a container
+            d2 = self.new_slot(None)
+            self.emit('size %d' % sm, ['0'])
+            self.emit('geta %d 0 %d' % (sm, d2), ['nil'])
+            self.emit('geto %d %s %d' % (sm, hx(b'a'), d2), ['nil'])
+            self.emit('getocs %d %s %d' % (sm, hx(b'a'), d2), ['nil'])
+            self.emit('has %d %s' % (sm, hx(b'a')), ['0'])
+            self.drop_slot(d2)
         mask = {'f': 2 | 8, 't': 4 | 8, 'z': 16, 'n': 32, 's': 64, 'a': 128, 'o': 256, 'w': 512}[m.kind]
         self.emit('is %d' % sm, [str(mask)])
         self.emit('gsv %d' % sm, [hx(m.sval)] if m.kind == 's' else ['nil'])
